@@ -35,7 +35,7 @@ func (c15) Describe() CheckInfo {
 		},
 		RealCode:       []string{"gopatch main()/mainCmd.Run, findFiles/findGoFiles, internal/*"},
 		Stubs:          []string{"package os (simulated filesystem incl. symlinks, fifo, shuffled readdir)", "path/filepath Walk re-hosted on the simulated os", "io/ioutil"},
-		RequiredProbes: []string{"excluded-dir-nested", "symlink-to-dir", "symlink-to-file", "dir-named-like-go-file", "overlapping-args", "duplicate-args", "explicit-file-in-excluded-dir", "dotdot-respelling", "absolute-arg", "non-go-file", "readdir-shuffled", "permuted-rerun", "dot-named-go-file"},
+		RequiredProbes: []string{"excluded-dir-nested", "symlink-to-dir", "symlink-to-file", "dir-named-like-go-file", "overlapping-args", "duplicate-args", "explicit-file-in-excluded-dir", "dotdot-respelling", "absolute-arg", "non-go-file", "absolute-noncanonical-arg", "readdir-shuffled", "permuted-rerun", "dot-named-go-file"},
 	}
 }
 
@@ -213,7 +213,23 @@ func c15Spell(abs []string, r *world.PRNG, c *Case) []string {
 		if s == "" {
 			s = "."
 		}
-		switch r.Intn(7) {
+		switch r.Intn(9) {
+		case 7:
+			// absolute but not canonical: /./, //, /x/../
+			idx := strings.LastIndex(a, "/")
+			switch r.Intn(3) {
+			case 0:
+				s = a[:idx] + "/." + a[idx:]
+			case 1:
+				s = a[:idx] + "/" + a[idx:]
+			default:
+				s = ProjDir + "/../proj" + strings.TrimPrefix(a, ProjDir)
+			}
+		case 8:
+			s = "./" + s + ""
+			if rel != "" {
+				s = "./" + strings.Replace(rel, "/", "//", 1)
+			}
 		case 0:
 			s = a // absolute
 		case 1:
@@ -369,6 +385,10 @@ func (c15) Eval(env *Env, c *Case) []Violation {
 		if strings.HasPrefix(t, "/") {
 			f += "abs"
 			env.Probe("absolute-arg")
+			if strings.Contains(t, "/./") || strings.Contains(t, "//") || strings.Contains(t, "/../") {
+				f += "noncanon"
+				env.Probe("absolute-noncanonical-arg")
+			}
 		}
 		if strings.Contains(t, "/../") {
 			f += "dotdot"
